@@ -49,6 +49,8 @@ def conc(res, work, tier, seed):
     vlib.mc_expect_ok(work, "TimerSink.tla", c, "TimerSink: 3 goroutines x %d records on one reporter-less timer" % (3 if big else 2), res, timeout=1800)
     c = vlib.write_cfg(work, "tsink_w.cfg", "TimerSink.cfg", {"WeakSharedLockAppend": "TRUE"})
     vlib.mc_expect_violation(work, "TimerSink.tla", c, "ExactlyOnce", "WeakSharedLockAppend", res, timeout=600)
+    c = vlib.write_cfg(work, "tsink_k.cfg", "TimerSink.cfg", {"WeakKeepCap": 4})
+    vlib.mc_expect_violation(work, "TimerSink.tla", c, "ExactlyOnce", "WeakKeepCap", res, timeout=600)
     out = os.path.join(work, "conc")
     os.makedirs(out)
     vlib.stage_specs(out)
